@@ -220,6 +220,19 @@ func runProperty(o *runOpts, prop string) ([]*FuncResult, error) {
 		}
 		x.sess.Close()
 		dischargeAll(frs, o.timeoutMs, o.workers, o.dump)
+		// an obligation on which every solver ran out of time is tried once more, alone and with
+		// six times the budget, before it is reported: on a loaded machine a timeout says nothing
+		for _, fr := range frs {
+			for _, ob := range fr.Obligs {
+				if ob.Res.V == Unknown && ob.PC != nil && os.Getenv("GCV_NORETRY") == "" {
+					r := Discharge(obligBody(ob), 6*o.timeoutMs, false)
+					if r.V != Unknown {
+						r.Solver += "(retry)"
+						ob.Res = r
+					}
+				}
+			}
+		}
 		all = append(all, frs...)
 	}
 	return all, nil
